@@ -197,7 +197,11 @@ MIPS32 = {
                     asm="lw $t0, %lo({t})($t0)", attrs=("LO",)),
     "jne": dict(b=_wb(0x15000000) + "00000000", kind="jcc", sym=(0, 2),
                 asm="bne $t0, $zero, {t}"),
-    "ret": dict(b=_wb(0x03E00008) + "00000000", kind="ret", asm="jr $ra"),
+    # (LLVM-MC does not flag `jr $ra` as a return: the library's assembler
+    # makes it an indirect branch, which C12 does not judge either way; the
+    # key is for original code in rewrite scenarios only)
+    "ret": dict(b=_wb(0x03E00008) + "00000000", kind="ret", asm="jr $ra",
+                rw_only=True),
     "ud2": dict(b=_wb(0x0000000D), kind="halt", asm="break"),
     "syscall": dict(b=_wb(0x0000000C), kind="syscall", asm="syscall",
                     patch=False),
